@@ -6,6 +6,8 @@ From PowHsm Require Import Model.Cert.
 From PowHsm Require Import Model.CertV2.
 From PowHsm Require Import Proofs.CertProofs.
 From PowHsm Require Import Proofs.C07.
+From PowHsm Require Import Gen.Src.
+From PowHsm Require Import Proofs.SrcEquivCert.
 Open Scope N_scope.
 
 (* offsets computed from the generated struct layouts: report data = bytes 320..384 of a report body, 368..432 of a quote; shorter buffers have none *)
@@ -234,5 +236,19 @@ Theorem C07_v2_first_failure :
             link_v2 hash p256_verify p256_key x509_parse x509_sig_ok now root_elem x
               (cf_after ByRoot pre) = false /\ n = ce_name x).
 Proof. exact (@v2_first_failure). Qed.
+
+(* TIE BY TRANSLATION: the chain walk the version-2 (SGX) certificate class inherits, re-translated for that class (root name sgx_root), is the model's verdict map *)
+Theorem C07_source_walk_is_model :
+  forall (link_ok : celem -> certifier -> bool) (value_of tweak_of : celem -> pr pv)
+           (root_pv : pv) (call_method : string -> pv -> list pv -> pr pv) 
+           (c : cert) (fuel : nat),
+         oracle_ok link_ok value_of tweak_of root_pv call_method ->
+         c_version c = 2%Z ->
+         str_named c ->
+         targets_resolve link_ok c ->
+         (S (Datatypes.length (c_elems c)) <= fuel)%nat ->
+         src_HSMCertificateV2__validate_and_get_values fuel call_method (cert_pv c) root_pv =
+         spec_results link_ok value_of tweak_of c (c_targets c) [].
+Proof. exact (@src_validate_v2_ok). Qed.
 
 Example C07_nonvacuous : True. Proof. exact I. Qed. (* Module Examples of Proofs/C07.v, closed by vm_compute through load_cert + validate_all with toy oracles: the 4-element and depth-2 chains accepted; custom-data mismatch, changed byte, short message, foreign signature, auth-data mismatch, non-P-256 issuer, expired, not yet valid, bad X.509 signature rejected at the right element *)
